@@ -1,5 +1,5 @@
 \* model check only (see gen/FileSplit_gen_thorough.cfg)
-CONSTANTS MAXLEN = 13  MAXREP = 6  CRLFLEN = 11
+CONSTANTS MAXLEN = 13  MAXREP = 6  CRLFLEN = 10
 SPECIFICATION Spec
 INVARIANTS C15_File ModelShape
 CHECK_DEADLOCK FALSE
